@@ -527,19 +527,14 @@ class Table:
                 return [ i for i,c in enumerate(col,lo) if c is not None and c > arg ]
 
         if comparison == "match":
-            if not col:
-                return []
-            if isinstance(arg,Number) and col and isinstance(col[0],Number):
-                return [ i for i,c in enumerate(col,lo) if c == arg ]
-            elif isinstance(arg,Number) and isinstance(col[0],str):
+            #decided cell by cell: what the first cell of the column is says nothing about the others
+            if isinstance(arg,Number):
                 _re = re.compile(f'(\D|^){arg}(\D|$)')
-                return [ i for i,c in enumerate(col,lo) if c is not None and _re.search(c) ]
-            elif isinstance(arg,str) and isinstance(col[0],str):
-                _re = re.compile(arg)
-                return [ i for i,c in enumerate(col,lo) if c is not None and _re.search(c) ]
+                is_match = lambda c: c == arg if isinstance(c,Number) else isinstance(c,str) and bool(_re.search(c))
             else:
                 _re = re.compile(str(arg))
-                return [ i for i,c in enumerate(col,lo) if c is not None and _re.search(str(c)) ]
+                is_match = lambda c: c is not None and c is not Missing and bool(_re.search(c if isinstance(c,str) else str(c)))
+            return [ i for i,c in enumerate(col,lo) if is_match(c) ]
 
 class TransactionDecode:
     def filter(self, transactions:Iterable[str]) -> Iterable[Any]:
